@@ -36,6 +36,7 @@ func main() {
 	dumpReg := flag.Bool("registry", false, "debug: print the extracted registry")
 	dumpCFG := flag.String("cfg", "", "debug: print the CFG of a function")
 	dumpSCC := flag.Bool("sccs", false, "debug: print recursive call-graph components")
+	anchorFPFlag := flag.Bool("anchor-fingerprints", false, "maintenance: print the fingerprints of every unexported function and field of this tree as JSON (to be saved as tables/anchor_fingerprints.json)")
 	censusBudgetFlag := flag.Bool("census-budget", false, "maintenance: print the census site totals of the permitted functions on this tree as JSON (to be reviewed and saved as tables/census_budget.json)")
 	dumpLVal := flag.Bool("lvalwrites", false, "debug: survey LVal stores/appends/views")
 	flag.Parse()
@@ -45,6 +46,16 @@ func main() {
 		for _, id := range sortedKeys(ruleRegistry) {
 			fmt.Printf("%-28s floor=%-3d %s\n", id, ruleRegistry[id].Floor, ruleRegistry[id].Doc)
 		}
+		return
+	}
+	if *anchorFPFlag {
+		c, err := Load(*repo, buildConfigs["default"])
+		if err != nil {
+			fmt.Println(err)
+			os.Exit(1)
+		}
+		b, _ := json.MarshalIndent(c.currentFingerprints(), "", " ")
+		fmt.Println(string(b))
 		return
 	}
 	if *censusBudgetFlag {
@@ -265,6 +276,10 @@ func runProperty(repo string, spec PropSpec, tier string, seed int, dump bool, o
 	for _, p := range problems {
 		viol = append(viol, Obligation{Rule: "FRAMEWORK", Func: "-", Construct: p, Verdict: Violated, Status: "violation"})
 	}
+	for _, nt := range anchorNotes {
+		fmt.Println("note: " + nt)
+	}
+	anchorNotes = nil
 	fmt.Printf("property=%s tier=%s configs=%s packages=%d functions=%d obligations=%d proved=%d audited=%d known=%d violations=%d\n",
 		spec.ID, tier, strings.Join(cfgSummaries, ","), npkgs, nfuncs, len(uniq), counts["proved"], counts["audited"], counts["known-finding"], len(viol))
 	for _, rid := range sortedKeys(ruleStats) {
